@@ -68,6 +68,12 @@ func awaitWorkflowStatusByForeignID[Type any, Status StatusType](
 			filterByForeignID(foreignID),
 			filterByRunID(runID),
 		)
+		// The run-state-change topic carries every pause, cancellation, completion and data deletion of the run: only
+		// an event recording the awaited status means that the run has reached it.
+		if !shouldFilter && e.Type != int(int32(status)) {
+			shouldFilter = true
+		}
+
 		if shouldFilter {
 			err = ack()
 			if err != nil {
